@@ -54,9 +54,9 @@ Section Rpa.
     run class_env src_generate_private_address_params src_generate_private_address [VStr "cls"; VBytes []] =
     VTuple [VBytes (nrpa_generate tokens); VInt 1].
   Proof.
-    intros H. py. change (len [] =? 0) with true. cbn [negb].
-    replace ((0 <=? 5) && (5 <? len tokens)) with true by (unfold len; lia).
-    py. unfold nrpa_generate, bytes_of. cbn [bytes_ok forallb]. rewrite land63_ok. reflexivity.
+    intros H. py. change (len [] =? 0) with true. change (0 <=? 5) with true. cbv iota.
+    replace (5 <? len tokens) with true by (unfold len; lia).
+    py. unfold nrpa_generate. cbn [bytes_ok forallb]. rewrite land63_ok. reflexivity.
   Qed.
 
   Theorem is_resolvable_matches_source : forall t b, List.length b = 6%nat ->
@@ -64,7 +64,8 @@ Section Rpa.
         src_is_resolvable_params src_is_resolvable [VStr "address"] =
     VBool ((t =? 1) && is_resolvable_bytes b).
   Proof.
-    intros t b H. py. replace ((0 <=? 5) && (5 <? len b)) with true by (unfold len; lia).
+    intros t b H. py. change (0 <=? 5) with true. cbv iota.
+    replace (5 <? len b) with true by (unfold len; lia). py.
     unfold is_resolvable_bytes. destruct (t =? 1); reflexivity.
   Qed.
 
@@ -79,7 +80,8 @@ Section Rpa.
   Proof.
     intros addr irk H. unfold rpa_matches, py_from. replace (len addr) with 6 by (unfold len; lia).
     f_equal. unfold ah.
-    change (py_slice ?l 0 3) with (py_upto l 3). rewrite !py_upto_nonneg by lia.
+    set (X := e irk (py_slice addr 3 6 ++ zeros 13)).
+    change (py_upto (py_upto X 3) 3 = py_upto X 3). rewrite !py_upto_nonneg by lia.
     rewrite firstn_firstn. reflexivity.
   Qed.
 End Rpa.
